@@ -9,7 +9,9 @@ import (
 	"fmt"
 	"strings"
 
+	"github.com/thought-machine/please/src/cli"
 	"github.com/thought-machine/please/src/core"
+	"github.com/thought-machine/please/src/parse"
 	"verif/harness/lib"
 )
 
@@ -285,6 +287,171 @@ func mkTarget(t vt) *core.BuildTarget {
 	return bt
 }
 
+// ---------------------------------------------------------------- declared restrictions through the real interpreter
+
+var aspState *core.BuildState
+var aspUses int
+
+// visArg renders a visibility argument code: _ omitted, N None, E [], P ["PUBLIC"], L<hex> ["//pkg/..."], A<hex> ["//pkg:all"].
+func visArg(code string) (py string, given bool, val []lab, ok bool) {
+	switch {
+	case code == "_":
+		return "", false, nil, true
+	case code == "N":
+		return "None", false, nil, true // None counts as "not set"
+	case code == "E":
+		return "[]", true, nil, true
+	case code == "P":
+		return `["PUBLIC"]`, true, []lab{public}, true
+	case len(code) > 1 && (code[0] == 'L' || code[0] == 'A'):
+		p, ok := unhex(code[1:])
+		if !ok || strings.ContainsAny(p, "\"\\\n") {
+			return "", false, nil, false
+		}
+		if _, err := core.TryParseBuildLabel("//"+p+":all", "", ""); err != nil || p == "" {
+			return "", false, nil, false
+		}
+		if code[0] == 'L' {
+			return `["//` + p + `/..."]`, true, []lab{{p, "...", ""}}, true
+		}
+		return `["//` + p + `:all"]`, true, []lab{{p, "all", ""}}, true
+	}
+	return "", false, nil, false
+}
+
+func boolArg(code string) (py string, given bool, val bool, ok bool) {
+	switch code {
+	case "_":
+		return "", false, false, true
+	case "N":
+		return "None", false, false, true
+	case "T":
+		return "True", true, true, true
+	case "F":
+		return "False", true, false, true
+	}
+	return "", false, false, false
+}
+
+func showLabs(ls []lab) string {
+	if len(ls) == 0 {
+		return "_"
+	}
+	p := make([]string, len(ls))
+	for i, l := range ls {
+		p[i] = showLab(l)
+	}
+	return strings.Join(p, "+")
+}
+
+// declared evaluates `package(...)` + one build_rule in package "lib" through the real parser and interpreter, reads back
+// the target's Visibility / TestOnly, then asks the real CanSee / CheckDependencyVisibility about a plain dependent in SRC.
+func (h *H) declared(op string, f []string) {
+	r := h.r
+	pdvPy, pdvGiven, pdv, ok1 := visArg(f[1])
+	pdtPy, pdtGiven, pdt, ok2 := boolArg(f[2])
+	visPy, visGiven, vis, ok3 := visArg(f[3])
+	toPy, toGiven, to, ok4 := boolArg(f[4])
+	srcPkg, ok5 := unhex(f[5])
+	if !(ok1 && ok2 && ok3 && ok4 && ok5) || f[1] == "N" || f[2] == "N" || srcPkg == "lib" {
+		r.Emit(op, "bad-op", false)
+		return
+	}
+	if _, err := core.TryParseBuildLabel("//"+srcPkg+":x", "", ""); err != nil {
+		r.Emit(op, "bad-op", false)
+		return
+	}
+	var b strings.Builder
+	if pdvGiven || pdtGiven {
+		var as []string
+		if pdvGiven {
+			as = append(as, "default_visibility = "+pdvPy)
+		}
+		if pdtGiven {
+			as = append(as, "default_testonly = "+pdtPy)
+		}
+		b.WriteString("package(" + strings.Join(as, ", ") + ")\n")
+	}
+	b.WriteString(`build_rule(name = "t", cmd = "true", outs = ["t.out"]`)
+	if visPy != "" {
+		b.WriteString(", visibility = " + visPy)
+	}
+	if toPy != "" {
+		b.WriteString(", test_only = " + toPy)
+	}
+	b.WriteString(")\n")
+	if aspState == nil || aspUses > 300 {
+		cli.InitLogging(0)
+		aspState = core.NewDefaultBuildState()
+		parse.InitParser(aspState)
+		aspUses = 0
+	}
+	aspUses++
+	aspState.Graph = core.NewGraph()
+	pkg := core.NewPackage("lib")
+	pkg.Filename = "lib/BUILD"
+	out := lib.Safely(func() string {
+		if _, err := parse.GetAspParser(aspState).EvalForVerif(pkg, []byte(b.String()), core.ParseModeNormal, false); err != nil {
+			return "error " + strings.ReplaceAll(err.Error(), "\n", " ")
+		}
+		t := pkg.Target("t")
+		if t == nil {
+			return "error no target"
+		}
+		var gotVis []lab
+		for _, v := range t.Visibility {
+			gotVis = append(gotVis, lab{v.PackageName, v.Name, v.Subrepo})
+		}
+		src := lab{srcPkg, "x", ""}
+		see := src.core().CanSee(aspState, t)
+		dependent := core.NewBuildTarget(src.core())
+		aspState.Graph.AddTarget(dependent)
+		dependent.AddDependency(t.Label)
+		chk := "ok"
+		if err := dependent.CheckDependencyVisibility(aspState); err != nil {
+			if strings.Contains(err.Error(), "isn't visible to") {
+				chk = "vis"
+			} else if strings.Contains(err.Error(), "test_only") {
+				chk = "testonly"
+			} else {
+				chk = "error"
+			}
+		}
+		return "vis=" + showLabs(gotVis) + " to=" + bit(t.TestOnly) + " see=" + bit(see) + " chk=" + chk
+	})
+	// direct oracle: the EXPLICIT argument decides when given (an empty list and False included), else the package
+	// default, else the configuration default (no visibility, not test_only)
+	effVis := pdv
+	if visGiven {
+		effVis = vis
+	}
+	effTo := pdt
+	if toGiven {
+		effTo = to
+	}
+	dep := vt{L: lab{"lib", "t", ""}, TestOnly: effTo, Vis: effVis}
+	src := lab{srcPkg, "x", ""}
+	wantSee := visible(nil, src, dep)
+	wantChk := "ok"
+	if !wantSee {
+		wantChk = "vis"
+	} else if effTo {
+		wantChk = "testonly"
+	}
+	want := "vis=" + showLabs(effVis) + " to=" + bit(effTo) + " see=" + bit(wantSee) + " chk=" + wantChk
+	if out != want {
+		cls := "declared-restriction-deviates"
+		if visGiven && pdvGiven && strings.HasPrefix(out, "vis="+showLabs(pdv)+" ") && showLabs(pdv) != showLabs(vis) {
+			cls = "explicit-visibility-replaced-by-package-default"
+		} else if toGiven && pdtGiven && strings.Contains(out, " to="+bit(pdt)+" ") && pdt != to {
+			cls = "explicit-testonly-replaced-by-package-default"
+		}
+		r.OracleFail(cls, op, fmt.Sprintf("BUILD file of //lib: %q; dependent //%s:x; real code: %s; declared restriction says: %s", b.String(), srcPkg, out, want))
+	}
+	r.Count("bv")
+	r.Emit(op, out, visGiven || toGiven || pdvGiven || pdtGiven)
+}
+
 type H struct{ r *lib.Run }
 
 func (h *H) runOp(op string) {
@@ -311,6 +478,8 @@ func (h *H) runOp(op string) {
 		}
 		r.Count("cs-" + bit(got))
 		r.Emit(op, bit(got), src.P != dep.L.P)
+	case f[0] == "bv" && len(f) == 6:
+		h.declared(op, f)
 	case f[0] == "cd" && len(f) == 4:
 		dirs, ok1 := parseDirs(f[1])
 		t, ok2 := parseVT(f[2])
@@ -519,6 +688,19 @@ func main() {
 								h.runOp("cs " + showDirs(dirs) + " " + showLab(lab{sp, sn, ss}) + " " + showVT(dep))
 							}
 						}
+					}
+				}
+			}
+		}
+	}
+	// 1b. declared restrictions through the real interpreter: package defaults x explicit arguments (omitted, None, the
+	//     empty list / False, values) x dependents inside and outside the granted packages
+	for _, pdv := range []string{"_", "E", "P", "L" + lib.Hex("app"), "A" + lib.Hex("app")} {
+		for _, pdt := range []string{"_", "T", "F"} {
+			for _, vis := range []string{"_", "N", "E", "P", "L" + lib.Hex("app"), "A" + lib.Hex("app/sub")} {
+				for _, to := range []string{"_", "N", "T", "F"} {
+					for _, src := range []string{"app", "app/sub", "appx", "other"} {
+						h.runOp("bv " + pdv + " " + pdt + " " + vis + " " + to + " " + lib.Hex(src))
 					}
 				}
 			}
